@@ -871,11 +871,16 @@ def coefficient_corr(ctx, B, rng):
         u_psi = np.pi / (b - a) * k
         vals = [np.cos(u_xi * (d - a)), np.sin(u_xi * (d - a)), np.exp(d), np.cos(u_xi * (c - a)), np.sin(u_xi * (c - a)), np.exp(c)]
         out = ctx.lean("chi " + " ".join(w(float(x)) for x in [u_xi] + vals))
-        sc = (abs(vals[0] * vals[2]) + abs(vals[3] * vals[5]) + abs(u_xi) * (abs(vals[1] * vals[2]) + abs(vals[4] * vals[5]))) / (1 + u_xi ** 2)
+        # scale: the terms with |cos|, |sin| <= 1 (not their actual values): the trigonometric functions are evaluated at arguments
+        # of size k*pi, whose last-bit rounding moves sin / cos by ~|argument| * 2^-52 in ABSOLUTE terms; an equivalent way of
+        # forming the argument (k*pi/(b-a)*(d-a) vs pi*k*(d-a)/(b-a), np.sinc, a complex exponential) must not break the tie
+        # where the exact value happens to vanish (false alarm met with the property-preserving refactor C18-ha)
+        amp = max(1.0, abs(u_xi * (d - a)) / 1024, abs(u_xi * (c - a)) / 1024)     # |argument| * 2^-52 expressed in units of 2^-40 ... 2^-42
+        sc = amp * (abs(vals[2]) + abs(vals[5])) * (1 + abs(u_xi)) / (1 + u_xi ** 2)
         ok = close(xi[j], rd(out), scale=max(sc, 1e-300))
         s_d, s_c = float(np.sin(u_psi * (d - a))), float(np.sin(u_psi * (c - a)))
         out2 = ctx.lean(f"psi {1 if k == 0 else 0} {w(float(u_psi))} {w(s_d)} {w(s_c)} {w(c)} {w(d)}")
-        sc2 = (abs(s_d) + abs(s_c)) / u_psi if k else abs(d) + abs(c)
+        sc2 = 2.0 * amp / u_psi if k else abs(d) + abs(c)
         ok = ok and close(psi[j], rd(out2), scale=max(sc2, 1e-300))
         out3 = ctx.lean(f"uput {w(a)} {w(b)} {w(float(xi[j]))} {w(float(psi[j]))}")
         ok = ok and close(up[j], rd(out3), scale=2 / (b - a) * (abs(xi[j]) + abs(psi[j])))
